@@ -45,10 +45,12 @@ def _l4(f):
     return t[:16] + struct.pack("!H", c) + t[18:]
   if f["proto"] == "udp":
     t = struct.pack("!HHHH", f["tsrc"], f["tdst"], 8 + len(pl), 0) + pl
-    c = rb.csum(src + dst + struct.pack("!BBH", 0, 17, len(t)) + t) or 0xffff
+    c = rb.csum(src + dst + struct.pack("!BBH", 0, 17, len(t)) + t) or 0xffff     # RFC 768
+    if f.get("nocs"):
+      c = 0                               # the sender generated no checksum
     return t[:6] + struct.pack("!H", c) + t[8:]
   if f["proto"] == "icmp":
-    t = struct.pack("!BBHHH", 8, 0, 0, 7, 9) + pl
+    t = struct.pack("!BBHHH", 8, 0, 0, f.get("eid", 7), 9) + pl
     return t[:2] + struct.pack("!H", rb.csum(t)) + t[4:]
   return pl
 
@@ -62,7 +64,7 @@ def enc(f):
     l4 = _l4(f)
     fragw = {0: 0x4000, 1: 0x2000, 2: 185}[f["frag"]]
     op = IPOPT[f["iopt"]]
-    h = struct.pack("!BBHHHBBH4s4s", 0x40 | (5 + len(op) // 4), f["tos"], 20 + len(op) + len(l4), 0x1234, fragw, 64,
+    h = struct.pack("!BBHHHBBH4s4s", 0x40 | (5 + len(op) // 4), f["tos"], 20 + len(op) + len(l4), f.get("ipid", 0x1234), fragw, 64,
                     PROTO[f["proto"]], 0, rb.ip(IPB[f["nsrc"]]), rb.ip(IPB[f["ndst"]])) + op
     h = h[:10] + struct.pack("!H", rb.csum(h)) + h[12:]
     out += struct.pack("!H", 0x0800) + h + l4
@@ -130,12 +132,15 @@ def describe(b):
     d["ip"] = dict(tos=l3[1], totlen=struct.unpack_from("!H", l3, 2)[0], proto=l3[9],
                    src=l3[12:16].hex(), dst=l3[16:20].hex(), csum_ok=rb.csum(l3[:hl]) == 0,
                    len_ok=struct.unpack_from("!H", l3, 2)[0] == len(l3), ihl=l3[0] & 15,
-                   options=l3[20:hl].hex())
+                   options=l3[20:hl].hex(), ident=l3[4:6].hex(), csum=l3[10:12].hex())
     l4 = l3[hl:]
     if l3[9] in (6, 17) and len(l4) >= 8:
       d["tp"] = list(struct.unpack_from("!HH", l4, 0))
       ph = l3[12:20] + struct.pack("!BBH", 0, l3[9], len(l4))
       d["l4_csum_ok"] = rb.csum(ph + l4) == 0
+      d["l4_csum"] = (l4[6:8] if l3[9] == 17 else l4[16:18]).hex()
+    elif l3[9] == 1 and len(l4) >= 4:
+      d["l4_csum"] = l4[2:4].hex()
   return d
 
 
@@ -143,3 +148,59 @@ def diff_fields(a, b):
   """names of describe() fields in which two frames differ (diagnostics)."""
   da, db = describe(a), describe(b)
   return sorted(k for k in set(da) | set(db) if da.get(k) != db.get(k))
+
+
+# ---- which special values of the Internet checksum does a frame sit on (vacuity notes, signatures) -------------
+
+def _once(words):
+  s = sum(words)
+  return (s & 0xffff) + (s >> 16)
+
+
+def _blocks(b):
+  """(site, checksum field, block the checksum covers with the field zeroed) of every checksum in the frame."""
+  out = []
+  if len(b) < 14:
+    return out
+  off = 12
+  et = struct.unpack_from("!H", b, off)[0]
+  if et == 0x8100 and len(b) >= 18:
+    off = 16
+    et = struct.unpack_from("!H", b, off)[0]
+  l3 = b[off + 2:]
+  if et != 0x0800 or len(l3) < 20:
+    return out
+  hl = (l3[0] & 15) * 4
+  if hl < 20 or len(l3) < hl:
+    return out
+  out.append(("ip", l3[10:12], l3[:10] + b"\0\0" + l3[12:hl]))
+  if struct.unpack_from("!H", l3, 6)[0] & 0x3fff:
+    return out                            # a fragment: what follows is opaque
+  l4, proto = l3[hl:], l3[9]
+  ph = l3[12:20] + struct.pack("!BBH", 0, proto, len(l4))
+  if proto == 17 and len(l4) >= 8:
+    out.append(("udp", l4[6:8], ph + l4[:6] + b"\0\0" + l4[8:]))
+  elif proto == 6 and len(l4) >= 20:
+    out.append(("tcp", l4[16:18], ph + l4[:16] + b"\0\0" + l4[18:]))
+  elif proto == 1 and len(l4) >= 4:
+    out.append(("icmp", l4[2:4], l4[:2] + b"\0\0" + l4[4:]))
+  return out
+
+
+def boundary_classes(b):
+  """e.g. {"udp/zero", "ip/carryle", "udp/none"} - diagnostics and vacuity counting only, never a verdict."""
+  out = set()
+  for site, field, blk in _blocks(b):
+    if len(blk) & 1:
+      blk += b"\0"
+    n = len(blk) // 2
+    if site == "udp" and field == b"\0\0":
+      out.add("udp/none")
+      continue
+    if rb.csum(blk) == 0:
+      out.add(site + "/zero")
+    if _once(struct.unpack("!%dH" % n, blk)) == 0x10000:
+      out.add(site + "/carry")
+    if _once(struct.unpack("<%dH" % n, blk)) == 0x10000:
+      out.add(site + "/carryle")
+  return out
